@@ -1666,6 +1666,108 @@ theorem witness_step_exact (m : Model) (hA : 0 < m.A) (τ : Rat) (Γ : List Vec)
   intro a ha
   exact witness_complete m.S m.O _ (fun o _ => projList_ne_nil m τ Γ a o hΓ) (C a) (hC a) (hval a) b (hno a (by omega))
 
+
+/-! ## `findVerticesNaive`: what its linear system says (defect 1 at model level) -/
+
+theorem dot_indicator (S : Nat) (x : Vec) (d : Nat) (hd : d < S) :
+    dot S (mkVec S (fun s => if s = d then 1 else 0)) x = x.get d := by
+  unfold dot
+  have : sumTo S (fun s => (mkVec S (fun s => if s = d then (1 : Rat) else 0)).get s * x.get s)
+       = sumTo S (fun s => (if s = d then (1 : Rat) else 0) * x.get s) := by
+    apply sumTo_congr; intro s hs; rw [mkVec_get _ hs]
+  rw [this, AITB.MDP.sumTo_indicator S x.get d hd]
+
+theorem dot_ones (S : Nat) (x : Vec) : dot S (mkVec S (fun _ => 1)) x = sumTo S x.get := by
+  unfold dot
+  apply sumTo_congr; intro s hs; rw [mkVec_get _ hs]; ring
+
+theorem mem_boundaryRows (S : Nat) (sub : List FvnElem) (d : Nat) (h : FvnElem.boundary d ∈ sub) :
+    (⟨mkVec S (fun s => if s = d then 1 else 0), 0, 0⟩ : FvnRow) ∈ fvnBoundaryRows S sub := by
+  induction sub with
+  | nil => simp at h
+  | cons e r ih =>
+    cases e with
+    | plane α =>
+      simp only [fvnBoundaryRows]
+      rcases List.mem_cons.mp h with h | h
+      · cases h
+      · exact ih h
+    | boundary d' =>
+      simp only [fvnBoundaryRows]
+      rcases List.mem_cons.mp h with h | h
+      · cases h; exact List.mem_cons_self
+      · exact List.mem_cons_of_mem _ (ih h)
+
+theorem mem_planeRows (sub : List FvnElem) (α : Vec) (h : FvnElem.plane α ∈ sub) :
+    (⟨α, -1, 0⟩ : FvnRow) ∈ fvnPlaneRows sub := by
+  induction sub with
+  | nil => simp at h
+  | cons e r ih =>
+    cases e with
+    | plane β =>
+      simp only [fvnPlaneRows]
+      rcases List.mem_cons.mp h with h | h
+      · cases h; exact List.mem_cons_self
+      · exact List.mem_cons_of_mem _ (ih h)
+    | boundary d' =>
+      simp only [fvnPlaneRows]
+      rcases List.mem_cons.mp h with h | h
+      · cases h
+      · exact ih h
+
+/-- **fvn_rows_sound** (repaired form): every solution of the system is a point of the simplex' affine hull lying on all chosen
+    boundaries, at which `new` and all chosen planes have the same value `v` — i.e. exactly the vertex the comment describes. -/
+theorem fvn_rows_sound (S : Nat) (new : Vec) (sub : List FvnElem) (x : Vec) (v : Rat)
+    (h : fvnSolves true S new sub x v = true) :
+    dot S new x = v ∧ sumTo S x.get = 1 ∧
+    (∀ α, FvnElem.plane α ∈ sub → dot S α x = v) ∧
+    (∀ d, d < S → FvnElem.boundary d ∈ sub → x.get d = 0) := by
+  unfold fvnSolves fvnRows at h
+  simp only [if_true] at h
+  rw [List.all_eq_true] at h
+  have hrow : ∀ r ∈ (⟨new, -1, 0⟩ : FvnRow) :: (fvnPlaneRows sub ++ fvnBoundaryRows S sub ++ [⟨mkVec S (fun _ => 1), 0, 1⟩]),
+      dot S r.coef x + r.cv * v = r.rhs := by
+    intro r hr
+    have := h r hr
+    unfold FvnRow.holds at this
+    exact of_decide_eq_true this
+  refine ⟨?_, ?_, ?_, ?_⟩
+  · have := hrow _ List.mem_cons_self
+    simp only at this; linarith
+  · have := hrow ⟨mkVec S (fun _ => 1), 0, 1⟩ (List.mem_cons_of_mem _ (List.mem_append_right _ List.mem_cons_self))
+    simp only at this
+    rw [dot_ones] at this; linarith
+  · intro α hα
+    have := hrow _ (List.mem_cons_of_mem _ (List.mem_append_left _ (List.mem_append_left _ (mem_planeRows sub α hα))))
+    simp only at this; linarith
+  · intro d hd hb
+    have := hrow _ (List.mem_cons_of_mem _ (List.mem_append_left _ (List.mem_append_right _ (mem_boundaryRows S sub d hb))))
+    simp only at this
+    rw [dot_indicator S x d hd] at this; linarith
+
+/-- **fvn_merged_row_counterexample** (as shipped): on the witness of defect 1 (`new` and `α` are the two corner supports LinearSupport
+    holds, subset = {α, boundary x₁ = 0}) the system is satisfied by the intended edge vertex (86/317, 0, 231/317) AND by a point with
+    x₁ = 1 outside the simplex: it does not determine the vertex, the QR solve returns whichever basic solution pivoting picks. -/
+theorem fvn_merged_row_counterexample :
+    let new : Vec := #[261/32, -33/16, 21/4]
+    let α : Vec := #[15/16, -6, 127/16]
+    fvnSolves false 3 new [.plane α, .boundary 1] #[86/317, 0, 231/317] (dot 3 new #[86/317, 0, 231/317]) = true ∧
+    fvnSolves false 3 new [.plane α, .boundary 1] #[-40/317, 1, 357/317] (dot 3 new #[-40/317, 1, 357/317]) = true ∧
+    fvnSolves true 3 new [.plane α, .boundary 1] #[86/317, 0, 231/317] (dot 3 new #[86/317, 0, 231/317]) = true ∧
+    fvnSolves true 3 new [.plane α, .boundary 1] #[-40/317, 1, 357/317] (dot 3 new #[-40/317, 1, 357/317]) = false := by
+  decide +kernel
+
+
+/-- the form found in the source on this run (`tools/extract_c02.py`): when the boundaries are separate rows, the solved system
+    characterises the vertex; when they are merged (as shipped) only `fvn_merged_row_counterexample` applies -/
+theorem fvn_as_extracted (hflag : AITB.Gen.C02.fvnBoundaryRows = true) (S : Nat) (new : Vec) (sub : List FvnElem) (x : Vec) (v : Rat)
+    (h : fvnSolves AITB.Gen.C02.fvnBoundaryRows S new sub x v = true) :
+    dot S new x = v ∧ sumTo S x.get = 1 ∧
+    (∀ α, FvnElem.plane α ∈ sub → dot S α x = v) ∧
+    (∀ d, d < S → FvnElem.boundary d ∈ sub → x.get d = 0) := by
+  rw [hflag] at h
+  exact fvn_rows_sound S new sub x v h
+
 /-! ## the hypotheses are satisfiable by a non-trivial model -/
 
 /-- two states, two actions, two noisy observations -/
